@@ -22,7 +22,7 @@ env = dict(os.environ, GOFLAGS="-mod=mod", GOPROXY="off")
 env.pop("GOSUMDB", None); env.pop("GOTOOLCHAIN", None)
 
 def sh(cmd, cwd=None, timeout=1800):
-    p = subprocess.run(cmd, shell=True, cwd=cwd, env=env, stdout=subprocess.PIPE, stderr=subprocess.STDOUT, text=True, timeout=timeout)
+    p = subprocess.run(cmd, shell=True, cwd=cwd, env=env, stdout=subprocess.PIPE, stderr=subprocess.STDOUT, text=True, errors="replace", timeout=timeout)
     return p.returncode, p.stdout
 
 head = sh("git -C /repo rev-parse HEAD")[1].strip()
